@@ -21,6 +21,10 @@ COMPILERS = {"rel": "g++", "asan": "clang++", "tsan": "clang++"}
 # property table. engine "rc": a rapidcheck executable built in the `rel` flavour.
 # quick/thorough: (multiplier on each sub-check's base case count, number of parallel seeds)
 PROPS = {
+    "C17": dict(engine="rc", exe="c17", quick=(1, 6), thorough=(20, 16),
+                extra_builds=[("rel", ["gwb-dat"], {"VERIF_GWB_DAT": "wb/bin/gwb-dat"})],
+                assumptions=["values are compared as the text an output stream with default precision produces (what the tool uses)",
+                             "'reported' for a malformed row = non-zero exit status or an error message on stdout/stderr"]),
     "C14": dict(engine="rc", exe="c14", quick=(1, 6), thorough=(12, 16),
                 extra_builds=[("tsan", ["c14_threads", "gwb-grid"], {"VERIF_TSAN_EXE": "c14_threads", "VERIF_TSAN_GRID": "wb/bin/gwb-grid"})],
                 assumptions=["schedules are sampled, not enumerated: ThreadSanitizer flags an unsynchronised conflicting pair whenever both accesses execute, but a race on a path no generated query reaches stays invisible",
